@@ -45,6 +45,7 @@ class TaggedDevice:
 
     # link model: a read error loses the host's read, not the device's answer - the answer stays in
     # the link's buffer and is what the next read on the same (not re-opened) link returns
+    served = None            # per request handled: (tag, number of device exchanges made while it was handled, reply)
     fault_in = None          # the n-th exchange from now fails with a read error
     stale = None
     world = None
@@ -164,6 +165,7 @@ def expected_reply(dev, req):
 
 def one_round(rng, nclients, delay, seq, fault=False, kind="ledger", v1=False, fatal=False):
     dev = TaggedDevice(rng, delay)
+    dev.served = []
     world = env.World(device=dev)
     dev.world = world
     env.install_transport(world)
@@ -204,9 +206,20 @@ def one_round(rng, nclients, delay, seq, fault=False, kind="ledger", v1=False, f
             my = (threading.get_ident(), counter["n"])
         dev.tags.current = my
         dev.shared_tag = my
+        n0 = len(dev.log)
+        written = []
+
+        class W:
+            def write(self_, data):
+                written.append(bytes(data))
+                return wfile.write(data)
+
+            def __getattr__(self_, name):
+                return getattr(wfile, name)
         try:
-            return orig_handle(self, client_address, rfile, wfile)
+            return orig_handle(self, client_address, rfile, W())
         finally:
+            dev.served.append((my, len(dev.log) - n0, b"".join(written)))
             dev.tags.current = None
             dev.shared_tag = None
 
@@ -382,6 +395,17 @@ def run(ctx):
             elif exp is None and got.get("errorcode") not in (0, 1):
                 res["violations"].append({"key": "C12:failed-under-concurrency", "what": "request failed: %r"
                                           % got, "request": rq["command"]})
+        # "the reply to its own request": every command but `version` reports device data or a device verdict, so
+        # a success reply made while the request exchanged nothing with the device was not made for this request
+        for tag, nex, raw in dev.served:
+            try:
+                jr = json.loads(raw)
+            except ValueError:
+                continue
+            if isinstance(jr, dict) and jr.get("errorcode") in (0, 1) and "version" not in jr and nex == 0:
+                res["violations"].append({"key": "C12:reply-without-own-exchange",
+                                          "what": "a request was answered %r although no device exchange was made "
+                                                  "while it was handled" % raw[:120], "round": r})
         if len(res["samples"]) < 2:
             res["samples"].append({"clients": n, "requests": [q["command"] for q in reqs],
                                    "log_tags": [str(t_[1]) for t_, _ in log][:40]})
